@@ -335,6 +335,25 @@ func runCheck(prop, tier string, overlay map[string][]byte, mutantMode bool) (*C
 			var deadSites []string
 			for sx, k := range siteN {
 				if siteRef[sx] == k && !contains(rep.DeadOK, sx) {
+					if c := db.Contracts[rep.Key]; c != nil && len(c.Unreachable) > 0 && contains(c.Unreachable, sourceLine(sx)) {
+						res.Notes[fmt.Sprintf("return at %s of %s is declared unreachable and is unreachable", sx, rep.Key)] = true
+						continue
+					}
+					// the samples are contradictory: decide the statement with one query over all its paths
+					var alts []*Term
+					for j, pc := range rep.CoverPCs {
+						if j < len(rep.CoverSites) && rep.CoverSites[j] == sx && len(alts) < 400 {
+							alts = append(alts, And(pc...))
+						}
+					}
+					if len(alts) > k {
+						q := &Query{Name: "vacuity-site", Axioms: sv.axioms, Asserts: []*Term{Or(alts...)}}
+						file := filepath.Join(dir, fmt.Sprintf("vacsite_%d_%d.smt2", i, len(deadSites)))
+						os.WriteFile(file, []byte("; vacuity guard (all paths of one return statement): this must not be unsat\n"+q.SMT(false)), 0o644)
+						if runSolver(solvers[0], file, 10).answer != "unsat" {
+							continue
+						}
+					}
 					deadSites = append(deadSites, sx)
 				}
 			}
@@ -816,4 +835,25 @@ func (e *Engine) runSweep(name, prop string, res *CheckResult) ([]*Obligation, e
 		return e.surfaceSweep(prop, res)
 	}
 	return nil, fmt.Errorf("unknown sweep %q", name)
+}
+
+// sourceLine returns the trimmed text of a "path:line" position under /repo.
+func sourceLine(pos string) string {
+	i := strings.LastIndex(pos, ":")
+	if i < 0 {
+		return ""
+	}
+	n, err := strconv.Atoi(pos[i+1:])
+	if err != nil {
+		return ""
+	}
+	b, err := os.ReadFile(filepath.Join(repoDir(), pos[:i]))
+	if err != nil {
+		return ""
+	}
+	lines := strings.Split(string(b), "\n")
+	if n < 1 || n > len(lines) {
+		return ""
+	}
+	return strings.TrimSpace(lines[n-1])
 }
